@@ -38,11 +38,15 @@ func (ip *indexPersist) load() ([]pointer, error) {
 }
 
 func (ip *indexPersist) prepare(start int) func() error {
+	// The file lock is taken here, while the caller still holds the index lock, and
+	// released by the returned function: persists then reach the file in the order the
+	// index states they encode were produced. Taking it only when the write happens
+	// would let an older encoded state overwrite a newer one.
+	ip.p.Lock()
 	pointerEncoded := ip.p.encode(start, ip.idx.mu.pointers)
 	lenOfPointers := len(ip.idx.mu.pointers)
 
 	return func() error {
-		ip.p.Lock()
 		defer ip.p.Unlock()
 
 		err := ip.p.Truncate(int64(lenOfPointers) * pointerByteSize)
